@@ -119,19 +119,6 @@ Module C07.
 
   Definition idc : codec := C04.codec_of 0 [].
 
-  (* the appends of every log file with their flags: the rotation rule of app_append / app_rotate *)
-  Fixpoint groups (max : N) (ops : list wop) (syncs : list bool) (size : N) (cur : list (bool * bytes))
-                  (done : list (list (bool * bytes))) : list (list (bool * bytes)) :=
-    match ops with
-    | [] => done ++ [cur]
-    | WRotate :: r => groups max r syncs 8 [] (done ++ [cur])
-    | WAppend rec :: r =>
-        let s := match syncs with b :: _ => b | [] => false end in
-        let n := lenN (enc_rec idc (Some rec)) in
-        if max <? size + lenN rec then groups max r (tl syncs) (8 + n) [(s, rec)] (done ++ [cur])
-        else groups max r (tl syncs) (size + n) (cur ++ [(s, rec)]) done
-    end.
-
   (* what the buffered writer hands to the file for one log file that is closed in the end *)
   Definition chunk_lens (cap : nat) (g : list (bool * bytes)) : list N :=
     flat_map (fun e => match e with EWrite ch => [lenN ch] | _ => [] end)
@@ -141,7 +128,7 @@ Module C07.
     match c_sys c with
     | None => true
     | Some (cap, syncs, writes) =>
-        let gs := groups (c_max c) (c_ops c) syncs 8 [] [] in
+        let gs := log_groups idc (c_max c) (c_ops c) syncs 8 [] [] in
         list_eqb (fun x y => N.eqb (fst x) (fst y) && list_eqb N.eqb (snd x) (snd y))
                  (combine (map N.of_nat (seq 0 (length gs))) (map (chunk_lens cap) gs)) writes
     end.
@@ -159,7 +146,7 @@ Module C07.
 
   Definition explain (c : case) :=
     match c_sys c with
-    | Some (cap, syncs, writes) => map (chunk_lens cap) (groups (c_max c) (c_ops c) syncs 8 [] [])
+    | Some (cap, syncs, writes) => map (chunk_lens cap) (log_groups idc (c_max c) (c_ops c) syncs 8 [] [])
     | None => []
     end.
 
